@@ -250,7 +250,7 @@ def r3_layout(ctx: Context) -> None:
         "np.reshape(np.array(PAR), (P.shape[0], self.ensemble_size, self.N, self.D))".replace("PAR", "X"),)}
     for r in rets:
         v = r.value
-        ok = isinstance(v, ast.Call) and (dotted(v.func) or "").split(".")[-1] == "reshape"
+        ok = isinstance(v, ast.Call) and ((dotted(v.func) or "").split(".")[-1] == "reshape" or (isinstance(v.func, ast.Attribute) and v.func.attr == "reshape"))
         shape = None
         data = None
         if ok:
@@ -411,6 +411,9 @@ def r6_sorted_return(ctx: Context, v: CalibrateView) -> None:
         ok = isinstance(val, ast.Tuple) and len(val.elts) == 2
         if ok:
             a, b = val.elts
+            # a component bound once to a local (`sorted_losses = losses[idx]`, necessarily after `idx`) is read as what it is bound to
+            a = n.env.get(a.id, a) if isinstance(a, ast.Name) else a
+            b = n.env.get(b.id, b) if isinstance(b, ast.Name) else b
             # np.take(v, idx) without an axis is v[idx] for the one-dimensional loss vector (it would flatten the two-dimensional parameters)
             if isinstance(b, ast.Call) and (dotted(b.func) or "") in ("np.take", "numpy.take") and len(b.args) == 2 and not b.keywords and src(b.args[0]) == "self.losses_samp":
                 b = ast.Subscript(value=b.args[0], slice=b.args[1], ctx=ast.Load())
